@@ -136,6 +136,9 @@ func c15Matrix(rep *Report, m *model.Client, cfg engine.Config, prefix []engine.
 			if strings.HasPrefix(mm, "page-oob") {
 				mm = "page-oob" // the same abstract method with different out-of-range ids
 			}
+			if mm == "page-new-freed" {
+				mm = "page-freed"
+			}
 			if ms == "ro-while-writer-allocates" {
 				ms = "ro"
 			}
@@ -166,13 +169,28 @@ func c15Matrix(rep *Report, m *model.Client, cfg engine.Config, prefix []engine.
 	// (finished read transactions first: a second finish that unlocked again would be a fatal runtime error for a
 	// write transaction, but silently corrupts the reader count for a read transaction - the lock state is compared)
 	for _, st := range []string{"rw", "ro", "done-ro", "done-rw"} {
-		for _, meth := range []string{"commit", "rollback", "close", "alloc", "allocn", "flush", "checkpoint", "page", "page-oob", "page-oob-end", "page-oob-hdr", "page-freed", "rootpage"} {
+		for _, meth := range []string{"commit", "rollback", "close", "alloc", "allocn", "flush", "checkpoint", "page", "page-oob", "page-oob-end", "page-oob-hdr", "page-freed", "page-new-freed", "rootpage"} {
+			if meth == "page-new-freed" && st != "rw" {
+				continue
+			}
 			before := stateBefore()
 			tx := makeTx(f, st, r)
 			if meth == "page-freed" && st == "rw" {
 				if p, err := tx.Page(livePage); err == nil {
 					p.Free()
 				}
+			}
+			newFreed := txfile.PageID(0)
+			if meth == "page-new-freed" {
+				// a page allocated AND freed by the running transaction is a freed page as well
+				p, err := tx.Alloc()
+				if err != nil {
+					tx.Close()
+					rep.count("tx:page-new-freed:not-reachable(full file)", 1)
+					continue
+				}
+				newFreed = p.ID()
+				p.Free()
 			}
 			impl := guarded(func() error {
 				switch meth {
@@ -194,6 +212,9 @@ func c15Matrix(rep *Report, m *model.Client, cfg engine.Config, prefix []engine.
 					return tx.CheckpointWAL()
 				case "page", "page-freed":
 					_, err := tx.Page(livePage)
+					return err
+				case "page-new-freed":
+					_, err := tx.Page(newFreed)
 					return err
 				case "page-oob":
 					_, err := tx.Page(txfile.PageID(1 << 40))
@@ -467,6 +488,7 @@ func c15Queue(rep *Report, m *model.Client, r *rand.Rand) {
 	rd.Done()
 	// ... and the objects the closed queue hands out are closed as well
 	check("api_ack 1 0 0 0", guarded(func() error { return q.ACK(1) }), "ack/closed-queue")
+	check("api_ack 1 0 0 1", guarded(func() error { return q.ACK(0) }), "ack/closed-queue/zero")
 	check("api_reader closed begin", guarded(func() error { return q.Reader().Begin() }), "reader/closed/begin-on-fresh-reader")
 	check("api_reader closed next", guarded(func() error { _, err := q.Reader().Next(); return err }), "reader/closed/next-on-fresh-reader")
 	if w2, err := q.Writer(); err == nil {
@@ -485,6 +507,92 @@ func c15Queue(rep *Report, m *model.Client, r *rand.Rand) {
 	check("api_reader closed read", guarded(func() error { _, err := rd.Read(make([]byte, 8)); return err }), "reader/closed/read")
 	check("api_reader closed next", guarded(func() error { _, err := rd.Next(); return err }), "reader/closed/next")
 	check("api_reader closed available", guarded(func() error { _, err := rd.Available(); return err }), "reader/closed/available")
+}
+
+// c15QueueFailedClose: Queue.Close whose final flush fails (complete events in the write buffer of a full file)
+// returns the error - and the queue is closed all the same: the reader, the acker and the writers it handed out
+// before answer like those of a closed queue, nothing changes the committed state any more.
+func c15QueueFailedClose(rep *Report, m *model.Client, r *rand.Rand) {
+	d := simdisk.New("qfull")
+	f, err := txfile.VerifOpen(d, txfile.Options{PageSize: 1024, MaxSize: 64 * 1024})
+	if err != nil {
+		return
+	}
+	defer f.Close()
+	del, err := pq.NewStandaloneDelegate(f)
+	if err != nil {
+		return
+	}
+	q, err := pq.New(del, pq.Settings{WriteBuffer: 4096})
+	if err != nil {
+		return
+	}
+	check := func(req, impl, sig string) {
+		mod := m.Ask(req)
+		rep.Evaluations++
+		rep.count("queue:"+sig+"="+firstWord(impl), 1)
+		rep.nontrivial("queue/" + sig)
+		if impl != mod {
+			rep.violate(Violation{Kind: "oracle", Sig: "misuse/queue/" + sig + "/" + firstWord(impl),
+				Detail: fmt.Sprintf("queue %s returns %q, documented/model: %q", sig, impl, mod),
+				Replay: c15Replay{Object: "queue", State: sig, Impl: impl, Model: mod}})
+		}
+	}
+	w, err := q.Writer()
+	if err != nil {
+		return
+	}
+	// the application has used reader and ACK before
+	for i := 0; i < 3; i++ {
+		w.Write(make([]byte, 50))
+		w.Next()
+	}
+	w.Flush()
+	rd := q.Reader()
+	if rd.Begin() == nil {
+		if n, _ := rd.Next(); n > 0 {
+			rd.Read(make([]byte, n))
+		}
+		rd.Done()
+	}
+	q.ACK(1)
+	// fill the file until a flush fails, then leave complete events in the write buffer
+	full := false
+	for i := 0; i < 400 && !full; i++ {
+		_, e1 := w.Write(make([]byte, 300+r.Intn(500)))
+		e2 := w.Next()
+		full = e1 != nil || e2 != nil
+	}
+	if !full {
+		rep.count("queue:failed-close:not-reachable(file never full)", 1)
+		return
+	}
+	w.Write(make([]byte, 40))
+	w.Next()
+	pending, _ := q.Pending()
+	cerr := q.Close()
+	if cerr == nil {
+		rep.count("queue:failed-close:not-reachable(close succeeded)", 1)
+		return
+	}
+	rep.count("scenario:queue-close-with-a-failing-final-flush", 1)
+	check("api_reader closed begin", guarded(func() error { return rd.Begin() }), "reader/failed-close/begin")
+	rd.Done()
+	check("api_reader closed begin", guarded(func() error { return q.Reader().Begin() }), "reader/failed-close/begin-on-queue-reader")
+	q.Reader().Done()
+	check("api_ack 1 0 0 0", guarded(func() error { return q.ACK(1) }), "ack/failed-close")
+	check("api_ack 1 0 0 1", guarded(func() error { return q.ACK(0) }), "ack/failed-close/zero")
+	if w2, err := q.Writer(); err == nil {
+		check("api_writer closed write", guarded(func() error { _, err := w2.Write([]byte{1}); return err }), "writer/failed-close/write-on-queue-writer")
+	} else {
+		rep.count("queue:writer-of-a-queue-whose-close-failed=error", 1)
+	}
+	check("api_writer closed write", guarded(func() error { _, err := w.Write([]byte{1}); return err }), "writer/failed-close/write")
+	check("api_writer closed next", guarded(func() error { return w.Next() }), "writer/failed-close/next")
+	check("api_writer closed flush", guarded(func() error { return w.Flush() }), "writer/failed-close/flush")
+	if after, _ := q.Pending(); after != pending {
+		rep.violate(Violation{Kind: "oracle", Sig: "misuse-changes-state/queue/failed-close", Detail: fmt.Sprintf("calls on a queue whose Close failed (%v) changed Pending from %d to %d", cerr, pending, after), Replay: c15Replay{Object: "queue", State: "failed-close"}})
+	}
 }
 
 func init() {
@@ -518,6 +626,7 @@ func init() {
 			prefix := gen.History(hr, prof)
 			c15Matrix(rep, m, cfg, prefix, hr)
 			c15Queue(rep, m, hr)
+			c15QueueFailedClose(rep, m, hr)
 			if i == 0 {
 				rep.sample(map[string]interface{}{"config": cfg.String(), "prefix": opKinds(prefix)})
 			}
